@@ -5,8 +5,56 @@ import Pfl.Proofs.CFGBase
 namespace Pfl
 namespace CFG
 
+mutual
+theorem gen_reverse_of {G H : CFG}
+    (hp : ∀ h body, (h, body) ∈ G.prods → (h, body.reverse) ∈ H.prods) :
+    ∀ {s : Sym} {w : List String}, G.Gen s w → H.Gen s w.reverse
+  | _, _, .ter t => by simpa using Gen.ter t
+  | _, _, .var hm hl => Gen.var (hp _ _ hm) (genList_reverse_of hp hl)
+theorem genList_reverse_of {G H : CFG}
+    (hp : ∀ h body, (h, body) ∈ G.prods → (h, body.reverse) ∈ H.prods) :
+    ∀ {u : List Sym} {w : List String}, G.GenList u w → H.GenList u.reverse w.reverse
+  | _, _, .nil => by simpa using GenList.nil
+  | _, _, .cons (s := s) (u := u) (w₁ := w₁) (w₂ := w₂) hs hu => by
+    have h1 := gen_reverse_of hp hs
+    have h2 := genList_reverse_of hp hu
+    have h3 : H.GenList [s] w₁.reverse := by
+      simpa using GenList.cons h1 GenList.nil
+    simpa using genList_append h2 h3
+end
+
+theorem reverse_prods_fwd (G : CFG) :
+    ∀ h body, (h, body) ∈ G.prods → (h, body.reverse) ∈ G.reverse.prods := by
+  intro h body hm
+  show (h, body.reverse) ∈ G.prods.map fun p => (p.1, p.2.reverse)
+  exact List.mem_map.mpr ⟨(h, body), hm, rfl⟩
+
+theorem reverse_prods_bwd (G : CFG) :
+    ∀ h body, (h, body) ∈ G.reverse.prods → (h, body.reverse) ∈ G.prods := by
+  intro h body hm
+  have hm' : (h, body) ∈ G.prods.map fun p => (p.1, p.2.reverse) := hm
+  obtain ⟨⟨h', b'⟩, hp, heq⟩ := List.mem_map.mp hm'
+  simp only [Prod.mk.injEq] at heq
+  obtain ⟨rfl, rfl⟩ := heq
+  simpa using hp
+
+theorem gen_reverse_iff (G : CFG) (s : Sym) (w : List String) :
+    G.reverse.Gen s w ↔ G.Gen s w.reverse := by
+  constructor
+  · intro h
+    exact gen_reverse_of (reverse_prods_bwd G) h
+  · intro h
+    simpa using gen_reverse_of (reverse_prods_fwd G) h
+
 theorem reverse_lang (G : CFG) (w : List String) : G.reverse.Lang w ↔ G.Lang w.reverse := by
-  sorry
+  rw [lang_iff_gen, lang_iff_gen]
+  have hs : G.reverse.start = G.start := rfl
+  rw [hs]
+  constructor
+  · rintro ⟨s, h1, h2⟩
+    exact ⟨s, h1, (gen_reverse_iff G _ _).mp h2⟩
+  · rintro ⟨s, h1, h2⟩
+    exact ⟨s, h1, (gen_reverse_iff G _ _).mpr h2⟩
 
 end CFG
 end Pfl
